@@ -45,7 +45,9 @@ def create_inst(tier):
           ('success_created_and_registered', '__CPROVER_ensures($ret ==> ($this->sandbox_created == ST_CREATED && %s.len == __CPROVER_old(%s.len) + 1 && %s.elem[%s.len - 1] == (void *)$this))' % (L, L, L, L)),
           ('failure_not_registered', '__CPROVER_ensures(!$ret ==> (%s.len == __CPROVER_old(%s.len) && $this->sandbox_created != ST_CREATED))' % (L, L)),
           ('other_entries_unchanged', '__CPROVER_ensures((0 < __CPROVER_old(%s.len) ==> %s.elem[0] == __CPROVER_old(%s.elem[0])) && (1 < __CPROVER_old(%s.len) ==> %s.elem[1] == __CPROVER_old(%s.elem[1])))' % (L, L, L, L, L, L)),
-          ('frame', '__CPROVER_assigns($this->sandbox_created, $this->base0, V_BASE[0], V_BASE[1], V_SIZE[0], V_SIZE[1], %s.len, __CPROVER_object_whole(%s.elem))' % (L, L))]
+          # the frame names what create must NOT touch (state of the registrations, symbol caches and app-pointer table of the object);
+          # every other member of the record - including members a later version adds - may be written
+          ('frame', '__CPROVER_assigns($FIELDS_EXCEPT($this; struct %s; callback_keys, func_ptr_map, internal_func_ptr_map, app_ptr_map), V_BASE[0], V_BASE[1], V_SIZE[0], V_SIZE[1], %s.len, __CPROVER_object_whole(%s.elem))' % (SB, L, L))]
     h = ('  struct %s sb; int in_status = sb.sandbox_created; int in_create_ok = sb.base0.create_ok;\n' % SB + LIST_ENV +
          '  _Bool in_noabort; g_noabort = in_noabort; int in_slot; unsigned long in_base, in_size;\n'
          '  __CPROVER_assume((in_status != ST_CREATED) ==> ((in_len < 1 || arr[0] != (void *)&sb) && (in_len < 2 || arr[1] != (void *)&sb)));\n'
@@ -72,7 +74,7 @@ def destroy_inst(tier, clause_recreate=True):
         cl.append(('no_callback_registrations_survive', '__CPROVER_ensures($this->callback_keys.len == 0)'))
     # cached symbol addresses belong to the incarnation that looked them up (g_name: an arbitrary name id, M-map string keys)
     cl.append(('no_cached_symbol_address_survives', '__CPROVER_ensures(!$this->func_ptr_map.present[g_name] && !$this->internal_func_ptr_map.present[g_name])'))
-    cl.append(('frame', '__CPROVER_assigns($this->sandbox_created, $this->base0.destroyed, $this->callback_keys.len, $this->func_ptr_map, $this->internal_func_ptr_map, V_BASE[0], V_BASE[1], V_SIZE[0], V_SIZE[1], %s.len, __CPROVER_object_whole(%s.elem))' % (L, L)))
+    cl.append(('frame', '__CPROVER_assigns($this->sandbox_created, $this->base0.destroyed, $this->callback_keys.len, $this->func_ptr_map, $this->internal_func_ptr_map, $FIELDS_EXCEPT($this; struct ' + SB + '; base0, sandbox_created, callback_keys, func_ptr_map, internal_func_ptr_map, app_ptr_map), V_BASE[0], V_BASE[1], V_SIZE[0], V_SIZE[1], %s.len, __CPROVER_object_whole(%s.elem))' % (L, L)))
     h = ('  struct %s sb; int in_status = sb.sandbox_created; unsigned long in_keys = sb.callback_keys.len; __CPROVER_assume(sb.base0.destroyed < 1000);\n' % SB + LIST_ENV +
          '  _Bool in_noabort; g_noabort = in_noabort; unsigned long in_pos; g_pos = in_pos; unsigned char in_name; g_name = in_name;\n'
          '  g_obj = &sb; g_snap = in_status;\n  $ROOT(&sb);\n')
